@@ -171,7 +171,11 @@ func describeTx(tx pb.Transaction) string {
 	}
 	ip := &pb.InvokePayload{}
 	if td.VmType == pb.TransactionData_BVM && ip.Unmarshal(td.Payload) == nil {
-		return fmt.Sprintf("bvm[%s.%s/%d]", bt.To.String()[36:], ip.Method, len(ip.Args))
+		to := "<nil>"
+		if bt.To != nil {
+			to = bt.To.String()[36:]
+		}
+		return fmt.Sprintf("bvm[%s.%s/%d]", to, ip.Method, len(ip.Args))
 	}
 	return fmt.Sprintf("vm%d[%d bytes]", td.VmType, len(td.Payload))
 }
